@@ -652,7 +652,13 @@ func structEq(a, b ssa.Value, d int) bool {
 	switch x := a.(type) {
 	case *ssa.Const:
 		y, ok := b.(*ssa.Const)
-		return ok && x.Value != nil && y.Value != nil && constant.Compare(x.Value, token.EQL, y.Value)
+		if !ok {
+			return false
+		}
+		if x.Value == nil || y.Value == nil { // zero values (nil, zero structs)
+			return x.Value == nil && y.Value == nil && types.Identical(x.Type(), y.Type())
+		}
+		return constant.Compare(x.Value, token.EQL, y.Value)
 	case *ssa.Convert:
 		y, ok := b.(*ssa.Convert)
 		return ok && types.Identical(x.Type(), y.Type()) && structEq(x.X, y.X, d+1)
@@ -713,6 +719,11 @@ func boolFacts(v ssa.Value, want bool, d int) map[string]bool {
 	switch x := v.(type) {
 	case *ssa.Parameter:
 		out[x.Name()+"="+fmt.Sprint(want)] = true
+	case *ssa.Field:
+		// a bool field of a struct parameter (an options struct)
+		if pr, ok := x.X.(*ssa.Parameter); ok {
+			out[pr.Name()+"."+fieldName(x.X.Type(), x.Field)+"="+fmt.Sprint(want)] = true
+		}
 	case *ssa.UnOp:
 		if x.Op == token.NOT {
 			return boolFacts(x.X, !want, d+1)
@@ -722,6 +733,14 @@ func boolFacts(v ssa.Value, want bool, d int) map[string]bool {
 			if al, ok := x.X.(*ssa.Alloc); ok {
 				if pr := spilledParam(al); pr != nil {
 					out[pr.Name()+"="+fmt.Sprint(want)] = true
+				}
+			}
+			// load of a bool field of a spilled struct parameter
+			if fa, ok := x.X.(*ssa.FieldAddr); ok {
+				if al, ok := fa.X.(*ssa.Alloc); ok {
+					if pr := spilledParam(al); pr != nil {
+						out[pr.Name()+"."+fieldName(fa.X.Type(), fa.Field)+"="+fmt.Sprint(want)] = true
+					}
 				}
 			}
 		}
